@@ -1,4 +1,4 @@
 SPECIFICATION FairSpec
-CONSTANT MaxFaults = 1
+CONSTANTS NWrites = 1 MaxFaults = 1 ProgressReports = 0 LockOnlyIfPositive = FALSE
 PROPERTY FlushEventuallyReturns
 CHECK_DEADLOCK FALSE
